@@ -52,7 +52,7 @@ Definition ex_cds : feat :=
 Lemma ex_cds_ok : wf_C02 [ex_cds] = true /\ rt_C02 [ex_cds] = true /\ fix2 [ex_cds] = true /\ roundtrip_ok [ex_cds] = true.
 Proof. vm_compute. auto. Qed.
 
-(* PENDING FIX firstloc_overrides: the 5'-most location has a key of its own; after one cycle the other location
+(* OPEN FINDING F39 firstloc_overrides: the 5'-most location has a key of its own; after one cycle the other location
    inherits it (phase 2 appears on the line that had none), so the second text differs from the first *)
 Definition ex_firstloc : feat :=
   mkFeat [(k_type, AS (bs "CDS"%bs))] (Some [(k_ID, AS (bs "x"%bs)); (k_seqid, AS (bs "s"%bs))])
@@ -63,12 +63,17 @@ Proof. exists [ex_firstloc]. vm_compute. auto. Qed.
 Lemma firstloc_third_write : match cycle2 [ex_firstloc] with Some (_, x1, _) => fix2 x1 | None => false end = true.
 Proof. vm_compute. reflexivity. Qed.
 
-(* PENDING FIX loc_source: lines of one feature naming different sources; the writer repeats the first source *)
+(* lines of one feature naming different sources (F38, fixed in 3e14524): every line keeps its own source *)
 Definition ex_locsource : feat :=
   mkFeat [(k_type, AS (bs "match"%bs))] (Some [(k_ID, AS (bs "m"%bs)); (k_seqid, AS (bs "s"%bs)); (k_source, AS (bs "A"%bs))])
          [mkLoc 0 10 "+" None; mkLoc 20 30 "+" (Some [(k_source, AS (bs "B"%bs))])].
-Lemma locsource_refuted : exists x, wf_C02 x = true /\ forallb normalised x = true /\ rt_C02 x = false /\ roundtrip_ok x = false.
-Proof. exists [ex_locsource]. vm_compute. auto. Qed.
+Definition ex_locsource_text : bstr := "##gff-version 3
+s	A	match	1	10	.	+	.	ID=m
+s	B	match	21	30	.	+	.	ID=m
+"%bs.
+Lemma locsource_ok : wf_C02 [ex_locsource] = true /\ rt_C02 [ex_locsource] = true /\ fix2 [ex_locsource] = true /\ roundtrip_ok [ex_locsource] = true /\
+  option_map Bstr (write_gff [ex_locsource]) = Some ex_locsource_text.
+Proof. vm_compute. auto. Qed.
 
 (* neighbouring features with one (ID, type, seqid) are one feature to the reader (GFF3 semantics of a shared ID) *)
 Definition ex_adj : list feat :=
